@@ -23,7 +23,7 @@ NCPU = min(16, os.cpu_count() or 4)
 CLANG = "clang++-14"
 GXX = "g++"
 LOWER_FLAGS = ["-O1", "-fno-vectorize", "-fno-slp-vectorize", "-fno-unroll-loops", "-fno-exceptions",
-               "-mllvm", "-inline-threshold=100000", "-fno-sanitize=vptr,function", "-fsanitize-trap=all",
+               "-mllvm", "-inline-threshold=100000", "-fno-sanitize=vptr,function,pointer-overflow", "-fsanitize-trap=all",
                "-Wno-everything", "-Werror=c++11-narrowing", "-fconstexpr-steps=30000000"]
 COMPILE_TIMEOUT = 300
 SAN_UB = "-fsanitize=undefined"
@@ -264,7 +264,7 @@ class Chunk:
         else:
             san = SAN_WRAP if self.mode == "wrap" else SAN_UB
             cmd = [CLANG, "-std=" + self.std, "-O1", "-Wno-everything", "-Werror=c++11-narrowing", "-fconstexpr-steps=30000000", "-fPIC", "-shared", "-fno-exceptions", san,
-                   "-fno-sanitize=vptr,function", "-fsanitize-trap=all", "-DAUV_NATIVE"] + \
+                   "-fno-sanitize=vptr,function,pointer-overflow", "-fsanitize-trap=all", "-DAUV_NATIVE"] + \
                   self.incflags() + [self.src, "-o", so]
         t0 = time.time()
         try:
